@@ -520,6 +520,8 @@ func (p *printer) node1(it *item) (string, error) {
 		return p.tag(it.l, "lqx_show"+sp+bytesOf(n["name"]), it.r), nil
 	case "xfail":
 		return p.tag(it.l, "lqx_fail"+sp+"boom", it.r), nil
+	case "xsub":
+		return p.tag(it.l, "lqx_sub", it.r), nil
 	case "xfile":
 		return p.tag(it.l, "lqx_file"+sp+bytesOf(n["rel"]), it.r), nil
 	case "xexpand":
